@@ -699,7 +699,8 @@ class Executor(ExprMixin, StmtMixin, Engine):
             if solve.feasible(s_exc.pc):
                 self.apply_exc_post(s_exc, c, args, old)
                 yield from self.exceptional(s_exc, Exc(exc, line, cname), catch)
-        for exc in c.may_raise:
+        # exceptions a function lets through (allow_exc) can reach its callers as well
+        for exc in list(c.may_raise) + [e for e in c.allow_exc if e not in c.may_raise]:
             s_exc = st.fork()
             self.havoc_modifies(s_exc, c, args, node)
             self.apply_exc_post(s_exc, c, args, old)
